@@ -191,25 +191,25 @@ MStep(t, r, iv) ==
       page == adr \div P2(t.pb)
       idx  == adr % P2(t.pb)
       (* CSRBank: sel = (adr[pb:] == address); simple CSR i is addressed when sel & (adr[:pb] == i) *)
-      sel(b) == t.bankadr[b] = page
-      Hit(b) == IF sel(b) /\ idx < Len(t.csrs[b]) THEN t.csrs[b][idx + 1] ELSE NoCsr
+      Hit == [b \in 1..t.nb |-> IF t.bankadr[b] = page /\ idx < Len(t.csrs[b]) THEN t.csrs[b][idx + 1] ELSE NoCsr]
       DV(g) == iv[3 + g]
-      h(g)  == Hit(t.bank[g])
+      h(g)  == Hit[t.bank[g]]
       mine(g) == h(g).g = g
       scre(g) == buswe /\ mine(g)                       \* sc.re = bus.we  of the addressed simple CSR of g
       scwe(g) == busre /\ mine(g)                       \* sc.we = bus.re
       scr(g)  == dat % P2(h(g).nb)                      \* sc.r = bus.dat_w[:sc.size]
       k(g) == t.kind[g]
-      status(g) == StatusVal(t, g, DV(g))
+      status == [g \in 1..t.nr |-> IF IsStatus(t.kind[g]) THEN StatusVal(t, g, DV(g)) ELSE 0]
       (* value a simple CSR puts on the read multiplexer (sc.w) *)
       W(sc) == IF sc.g <= 0 THEN 0
                ELSE IF k(sc.g) = "csr" THEN DV(sc.g) % P2(t.size[sc.g])        \* harness: CSR.w = dv
                ELSE IF IsStorage(k(sc.g)) THEN Field(r.sto[sc.g], sc.lo, sc.nb)
-               ELSE Field(status(sc.g), sc.lo, sc.nb)
+               ELSE Field(status[sc.g], sc.lo, sc.nb)
       (* ---- outputs *)
-      per(g) == IF k(g) = "csr" THEN <<dat % P2(t.size[g]), B(scre(g)), B(scwe(g)), 0, 0>>
+      per == [g \in 1..t.nr |->
+                IF k(g) = "csr" THEN <<dat % P2(t.size[g]), B(scre(g)), B(scwe(g)), 0, 0>>
                 ELSE IF IsStorage(k(g)) THEN <<r.sto[g], r.re[g], 0, FieldsVal(t, g, r.sto[g], r.re[g]), 0>>
-                ELSE <<status(g), r.re[g], B(scwe(g) /\ h(g).last), 0, r.r2[g]>>
+                ELSE <<status[g], r.re[g], B(scwe(g) /\ h(g).last), 0, r.r2[g]>>]
       (* ---- next registers *)
       (* write_from_dev: If(we, storage.eq(dat_w)) stands before the bus writes in the sync block; harness: *)
       (* we = (dv != 0), dat_w = dv - 1                                                                      *)
@@ -225,11 +225,11 @@ MStep(t, r, iv) ==
       re2(g) == IF k(g) = "csr" THEN 0 ELSE B(scre(g) /\ h(g).last)                   \* self.sync += self.re.eq(sc.re)
       r22(g) == IF k(g) = "status_rw" /\ scre(g) THEN SetField(r.r2[g], h(g).lo, h(g).nb, scr(g)) ELSE r.r2[g]
       (* CSRBank read multiplexer: dat_r <= 0; If(sel, Case(adr[:pb], {i: dat_r.eq(c.w)}))  (no bus.re involved) *)
-      datr2(b) == IF Hit(b).g >= 0 THEN W(Hit(b)) ELSE 0
+      datr2(b) == IF Hit[b].g >= 0 THEN W(Hit[b]) ELSE 0
       N == 1 + t.nb + 5 * t.nr
   IN [o |-> [x \in 1..N |-> IF x = 1 THEN OrAll(r.datr, t.nb)                           \* master.dat_r = OR of the banks
                             ELSE IF x <= 1 + t.nb THEN r.datr[x - 1]
-                            ELSE per(((x - 2 - t.nb) \div 5) + 1)[((x - 2 - t.nb) % 5) + 1]],
+                            ELSE per[((x - 2 - t.nb) \div 5) + 1][((x - 2 - t.nb) % 5) + 1]],
       r |-> [datr |-> [b \in 1..t.nb |-> datr2(b)],
              sto  |-> [g \in 1..t.nr |-> sto2(g)],
              re   |-> [g \in 1..t.nr |-> re2(g)],
